@@ -79,7 +79,9 @@ def generate(ctx, n, salt, out, gen=None, layout=None, **kw):
 def base_run(ctx, n=None):
     """The shared generated-worlds run of C01-C04 (default configuration + scan-tests), cached per tree hash / seed / tier."""
     n = n or (120 if ctx.tier != "thorough" else 1500)
-    cache = os.path.join(ctx.cache, "base-%d-%s-%d.json" % (ctx.seed, ctx.tier, n))
+    import hashlib
+    gh = hashlib.sha1(open(worldgen.__file__.replace(".pyc", ".py"), "rb").read() + open(__file__.replace(".pyc", ".py"), "rb").read()).hexdigest()[:8]
+    cache = os.path.join(ctx.cache, "base-%d-%s-%d-%s.json" % (ctx.seed, ctx.tier, n, gh))
     if os.path.exists(cache):
         return json.load(open(cache))
     d = lib.scratch_dir()
